@@ -1,6 +1,8 @@
 (* C11 - Capital returns and accumulations move cost by exactly their amount.  Statements only. *)
 From Coq Require Import QArith Qcanon ZArith List Bool Sorted.
 Require Import CGT.Model.Num CGT.Model.Match CGT.Proofs.MatchFacts CGT.Proofs.MatchInv CGT.Proofs.MatchCost CGT.Proofs.PrepassFacts.
+Require Import CGT.Model.Ledger CGT.Model.Agg CGT.Model.Report CGT.Model.Validate CGT.Proofs.ReportAdd CGT.Proofs.ValidWf.
+From Coq Require Import String.
 Import ListNotations.
 Open Scope Qc_scope.
 
@@ -22,6 +24,17 @@ Theorem C11_offsets_total : forall ds started ls ls', wf_days ds -> sorted_days 
   (forall d, In d ds -> lots_ok ls (dt d)) -> prepass started ls ds = inr ls' ->
   offs_total ls' = offs_total ls + effective_total started ls ds.
 Proof. exact prepass_total. Qed.
+
+(* ... for every ledger the validator passes and each of its securities: when the cost pre-pass accepts the events, the offsets it
+   hands to the lots add up to exactly the net amounts of the events that took effect - no more, no less. *)
+Theorem C11_validated_ledgers : forall l s offs, has_errors (map t_op l) = false ->
+  prepass false [] (days_of_tick l s) = inr offs -> offs_total offs = effective_total false [] (days_of_tick l s).
+Proof.
+  intros l s offs Hv Hp. destruct (validated_days l s Hv) as [W S].
+  assert (L : forall d, In d (days_of_tick l s) -> lots_ok [] (dt d)) by (intros d _; split; [intros x []|split; [constructor|intros x []]]).
+  rewrite (prepass_total _ false [] offs W S L Hp). unfold offs_total. cbn [map]. rewrite CGT.Proofs.NumFacts.qsum_nil. ring.
+Qed.
+Print Assumptions C11_validated_ledgers.
 
 (* An accumulation and a capital return of equal net amount cancel lot by lot. *)
 Theorem C11_cancel : forall ls a, apply_adj (apply_adj ls a) (- a) = ls.
